@@ -39,7 +39,7 @@ def network_case(rng):
     upfront = rng.random() < 0.6
     cnt = {}
     for (i, kind, pf, ps, data) in plan:
-        ok = sc.send(i, 0, pf, ps, 6, data)
+        ok = sc.send(i, len(data) & 1 if pf in (100, 240, 254) else 0, pf, ps, 6, data)      # both data pages
         if upfront:
             key = (i, kind)
             cnt[key] = cnt.get(key, 0) + 1
